@@ -68,6 +68,9 @@ inductive Sep where
   | const (s : Word)
   /-- `NewSFFunction(r)` -/
   | recipe (r : CharRecipe)
+  /-- a caller-written function: one bounded draw over `first :: others` picks the separator
+  (the empty string may be among them), and a fixed entropy `log2 d` is reported -/
+  | custom (first : Word) (others : List Word) (d : Int)
   deriving Repr
 
 /-- The public fields of `WLRecipe` plus its list. -/
@@ -86,6 +89,7 @@ def Sep.call (cfg : Cfg) : Sep → Rand (Word × Int)
   | .recipe r => (r.genChars cfg).bind fun
       | .ok cs => .pure (cs, r.entropyD cfg)
       | .err _ => .pure ([], 1)
+  | .custom first others d => .draw (others.length + 1) fun i => .pure ((first :: others).getD i [], d)
 
 namespace WLRecipe
 variable (cfg : Cfg) (title : Word → Word) (r : WLRecipe)
